@@ -218,6 +218,18 @@ BASE_ASSUME = ["sequentially consistent interleavings of the atomic operations (
                "TLC, SANY, gcc -fsanitize=thread instrumentation and /verif/rt are trusted"]
 
 
+def fine_runs(run, exe, prop, tier, e):
+    import muconfigs
+    nruns = 1500 if tier == "quick" else 40000
+    for i, conf in enumerate(muconfigs.FINE.get(prop, [])):
+        res = run_harness_env(exe, ["random", str(nruns), str(seed() + 100 + i), muconf.init_line(conf), REPLAYS], dict(e, VERIF_FINE="1"))
+        run.add("evaluations", nruns); run.add("distinct_nontrivial", res["stats"].get("nontrivial", 0))
+        run.cov.setdefault("random_fine_note", []).append({"program": i, "runs": nruns, "violations": len(res["viols"])})
+        for v in res["viols"]:
+            if v[0] in (ORACLE_OF.get(prop, set()) | ALWAYS | {"O-prog", "O-ret"}):
+                run.violation("%s|%s|fine %d" % (v[0], v[1], i), v[4], v[5])
+
+
 def mu_check(prop, tier, replay, extra_rule="", extra_assume=(), env=None, post=None, family=None, cap_tours=None):
     import muconfigs
     run = Run(prop, tier, "model_checking")
@@ -254,6 +266,7 @@ def mu_check(prop, tier, replay, extra_rule="", extra_assume=(), env=None, post=
     if cap_tours:
         run.cov["tours_capped_at"] = cap_tours
         run.cov["exhaustive"] = False
+    fine_runs(run, exe, prop, tier, e)
     if post:
         post(run, exe, results, e)
     run.cov.setdefault("conformant", True)
